@@ -19,7 +19,8 @@ fn interrupt_entry(ctx: &Ctx) {
         let (kind, op) = encs[k];
         for which in 0..2u8 {
             for im in 0..3u8 {
-                for nmi in [false, true] {
+                // lines: INT alone, NMI alone, both at once (the NMI is served, once)
+                for (nmi, both) in [(false, false), (true, false), (true, true)] {
                     for halted in [false, true] {
                         let mut c = match base_case(kind, op, which, 0x8000) {
                             Some(c) => c,
@@ -34,7 +35,7 @@ fn interrupt_entry(ctx: &Ctx) {
                             c.code[0] = 0x76;
                             c.code_len = 1;
                         }
-                        c.env.int_line = !nmi;
+                        c.env.int_line = !nmi || both;
                         c.env.nmi_line = nmi;
                         c.env.ack_byte = if which == 0 { 0xFF } else { 0x12 };
                         c.finalize();
@@ -73,7 +74,7 @@ fn interrupt_entry(ctx: &Ctx) {
                             });
                             v
                         };
-                        let mode = if nmi { "nmi".to_string() } else { format!("im{}", im) };
+                        let mode = if nmi && both { "nmi+int".to_string() } else if nmi { "nmi".to_string() } else { format!("im{}", im) };
                         if t(&ie) != t(&re) {
                             ctx.violation(
                                 &format!("C03:int-entry:{}:t-states", mode),
@@ -101,6 +102,30 @@ fn interrupt_entry(ctx: &Ctx) {
     });
 }
 
+/// A halted CPU with no interrupt pending: every step is one 4-T opcode fetch at the HALT's address
+/// (a real M1 cycle: it refreshes, and on the Spectrum it is contended like any fetch).
+fn halted_steps(ctx: &Ctx) {
+    for which in 0..2u8 {
+        for pc in [0x8000u16, 0x3FFF, 0xFFFF, 0x0000] {
+            for (iff1, int_line) in [(false, false), (false, true), (true, false)] {
+                let mut c = match base_case(0, 0x76, which, pc) {
+                    Some(c) => c,
+                    None => return,
+                };
+                c.st.halted = true;
+                c.st.iff1 = iff1;
+                c.st.iff2 = iff1;
+                c.env.int_line = int_line;
+                c.code[0] = 0x76;
+                c.code_len = 1;
+                c.finalize();
+                compare_case(ctx, Mode::Cycles, 0, 0x76, &c, false);
+                ctx.add_eval(1);
+            }
+        }
+    }
+}
+
 pub fn run(tier: Tier, seed: u64, replay: Option<String>) -> i32 {
     let ctx = Ctx::new("C03", tier, seed, "model_checking");
     if let Some(path) = replay {
@@ -123,10 +148,11 @@ pub fn run(tier: Tier, seed: u64, replay: Option<String>) -> i32 {
         run_product(&ctx, Mode::Cycles, &[0x8000], 2048, false, seed);
     }
     interrupt_entry(&ctx);
+    halted_steps(&ctx);
     ctx.note("oracle_validation", crate::oracle::status_json());
     ctx.note("cycle_table_validation", json!("RefZ80 unit table: 121 instruction variants against the Zilog totals, interrupt entry 13/19/11, bus-event order of 20 instructions (cargo test -p refz80)"));
     ctx.finish(
-        "for each of the 1786 encodings, the product of the domains of every atom the reference bus-cycle list or result depends on (flags for conditional forms, B, BC, A==(HL) for repeats, operands, all address registers), two backgrounds with pairwise distinct recognisable register values, executed on Z80::emulate with a call-logging bus and on RefZ80; compared: the ordered list of (fetch-4 | read-3 | write-3 | single delay T with its address | port cycle | idle) calls; interrupt entry in IM0/1/2 and NMI, running and halted, after every encoding (total T and accesses; internal order not judged). distinct = distinct reference cycle lists",
+        "for each of the 1786 encodings, the product of the domains of every atom the reference bus-cycle list or result depends on (flags for conditional forms, B, BC, A==(HL) for repeats, operands, all address registers), two backgrounds with pairwise distinct recognisable register values, executed on Z80::emulate with a call-logging bus and on RefZ80; compared: the ordered list of (fetch-4 | read-3 | write-3 | single delay T with its address | port cycle | idle) calls; interrupt entry in IM0/1/2 and NMI, running and halted, after every encoding (total T and accesses; internal order not judged); the steps of a halted CPU without a pending interrupt (a 4-T fetch at the HALT's address). distinct = distinct reference cycle lists",
         true,
         &["documented cycle lists are RefZ80's (FUSE/Zilog breakdowns), totals unit-tested against the Zilog manual", "the 4-T length of port cycles at machine level is checked in C04"],
     )
